@@ -5,6 +5,7 @@ Line-protocol handler for the cache-protocol model (property C18).
     CONC run <f|o> <getter> <program> <schedule>      one execution, schedule = thread ids
     CONC explore <f|o> <getter> <program>             all schedules: multiset of outcomes
     CONC inv                                          the lock inventory the model assumes
+    CONC closeorder                                   the reviewed close order of a decoded stream's filter layers
     CONC appendinv                                    the reviewed inventory of append on fields / package-level slices
     CONC poolinv                                      the reviewed inventory of sync.Pool Get/Put sites
     CONC pkginv                                       the reviewed inventory of guarded package-level state
@@ -278,6 +279,8 @@ def handle (args : List String) : String :=
       s!"n={total} k={res.length} " ++ " ".intercalate (res.map fun (o, c) => s!"{o}*{c}")
     | _, _ => "bad-args"
   | ["inv"] => showInv
+  | ["closeorder"] =>
+    " ".intercalate (closeOrder.map fun (f, a, b) => if a == "" then s!"{f}:{b}" else s!"{f}:{a}:{b}")
   | ["appendinv"] =>
     " ".intercalate (appendInventory.map fun (f, fn, a, k, m) => s!"{f}:{fn}:append({a}):{k}:{m}")
   | ["poolinv"] =>
